@@ -6,6 +6,7 @@ of emit(...); plus a real compile of the sketch against the mock core (library c
 Oracle: set (in)equality on the real outputs."""
 from __future__ import annotations
 
+import configparser
 import importlib
 import re
 
@@ -71,6 +72,7 @@ def run(ctx: Ctx) -> int:
     R = importlib.import_module("Reduino")
     parser = importlib.import_module("Reduino.transpile.parser")
     emitter = importlib.import_module("Reduino.transpile.emitter")
+    pio = importlib.import_module("Reduino.toolchain.pio")
     rng = ctx.rng
     cases = [[], [("servo", "loopTop", "sv1", "Servo(9)")], [("lcdI2c", "setupTop", "li1", "LCD(i2c_addr=0, cols=16, rows=2)")],
              [("lcdPar", "setupTop", "lp1", "LCD(rs=12, en=11, d4=5, d5=4, d6=3, d7=2)"), ("lcdI2c", "setupTop", "li2", "LCD(i2c_addr=0x27)")]]
@@ -115,6 +117,18 @@ def run(ctx: Ctx) -> int:
             ctx.fail("libs:disagree", f"requested {libs}, included {inc}, instantiated {inst}, devices need {need}", replay)
         if len(set(libs)) != len(libs) or dup:
             ctx.fail("libs:duplicate", f"library requested or header included twice: {libs} {dup}", replay)
+        # the requested libraries as they reach the build: write_project -> platformio.ini -> configparser
+        try:
+            pdir = ctx.work / f"proj{i}"
+            pio.write_project(pdir, cpp, "COM3", lib_deps=libs)
+            cp = configparser.ConfigParser()
+            cp.read(pdir / "platformio.ini")
+            sec = [sct for sct in cp.sections() if sct.startswith("env:")][0]
+            ini_libs = [l.strip() for l in cp[sec].get("lib_deps", "").splitlines() if l.strip()]
+        except Exception as e:  # noqa: BLE001
+            ini_libs = ["<write_project failed: %r>" % (e,)]
+        if sorted(ini_libs) != sorted(need):
+            ctx.fail("libs:project-file-disagrees", f"platformio.ini requests {ini_libs} while the sketch includes {inc} (devices need {need})", replay)
         r = comp.get(i)
         if r is not None and (r.compile_error or not r.ok):
             ctx.fail("libs:compile", f"sketch does not build against the library headers it includes: {(r.compile_error or r.stderr)[:300]}", replay)
